@@ -399,6 +399,7 @@ func runC12(c *run.Ctx, s *kit.Summary) {
 	}
 	ha.Diff(c.Driver, s)
 	renderMany(c, s, r)
+	reporterReuse(c, s, r)
 	reportPlumbing(c, s, r)
 }
 
